@@ -6,6 +6,26 @@ HERE = os.path.dirname(os.path.abspath(__file__))
 COMMON = os.path.join(os.path.dirname(HERE), "common")
 
 ASSUMPTIONS = [
+    "abstract file system (E4 ghost `Fs`: name -> Absent | Partial | Complete(text)); only the agent process writes the key directory "
+    "(no other process, no second thread writing the same names between two primitives of one call)",
+    "file-system primitives (E9 stubs whose body is the original call): File::create = open(O_CREAT|O_TRUNC): Ok leaves that name Partial and nothing "
+    "else changed, Err changes nothing, a path without a file name cannot be created; serde_json::to_writer_pretty(file, obj): Ok means the whole "
+    "text json_of(obj) was handed to the kernel for the name the handle was created on (File has no user-space buffer; the handle is dropped = "
+    "closed on return), Err leaves it Partial; POSIX rename: atomic, Ok moves the source state onto the target and removes the source, Err changes "
+    "nothing; Path::exists / fs::read_to_string / File::open / serde_json::from_reader read the state of the name (a Partial file reads as anything)",
+    "durability is NOT claimed: no fsync is issued, so 'Complete' means complete in the kernel's view; the crash points covered are deaths of the "
+    "agent PROCESS between two primitives, not power loss",
+    "std::path (from its documentation): Path::join / to_path_buf / with_extension / PathBuf::set_extension as uninterpreted functions on abstract "
+    "path identities with: set_extension(e) on a path with a file name yields extension e (e non-empty, without '.' and '/'), on a path without a "
+    "file name it does nothing; a path without a file name has no extension; PathBuf derefs to the same path",
+    "serde_json: json_of(&&T) == json_of(&T) (Serialize for &T forwards); round trip parse_key(json_of(k)) == Some(k) for the derived "
+    "Serialize/Deserialize of Key -- used ONLY by the pure restart / naming lemmas, never by a function under contract",
+    "io_read_fault(p): the 'found after restart' clauses are stated for names the OS lets the agent read (exists/read_to_string may fail on "
+    "permission or device errors even for a complete file)",
+    "Display/Debug of std::path::Display, io::Error, serde_json::Error and the two crate Error types do not panic (text unconstrained)",
+    "Error / KeyErrorType (kept verbatim outside verus!{}, transparent) are only constructed; Result::map_err as specified by vstd",
+    "E13 placeholder: KeyKeeper (the six functions are associated functions that never touch a KeyKeeper value)",
+    "&str / String extensionality axioms; String::to_string of a String is an equal string",
 ]
 FN_PROPS = {}
 
@@ -38,10 +58,27 @@ RENAME_CONTRACT = """
                 r is Err ==> *final(fs) == *old(fs),
 """
 
+# File::open (read-only): succeeds only on an existing name
+OPEN_CONTRACT = """
+        ensures r is Ok ==> !(fs.state(pid(path)) is Absent) && file_pid(r->Ok_0) == pid(path),
+"""
+# serde_json::from_reader(file): parses the whole content of the file behind the handle
+FROM_READER_CONTRACT = """
+        ensures r is Ok ==> (match fs.state(file_pid(file)) {
+                    FileState::Complete(c) => parse_json::<T>(c) == Some(r->Ok_0), FileState::Partial => true, FileState::Absent => false }),
+"""
+JSON_READ_CONTRACT = """
+        requires
+            fs.safe(),  // @C08.json_read_from_file.crash_invariant_on_entry
+            !is_tmp(pid(file_path)),  // @C08.json_read_from_file.final_name_is_not_a_temporary_name
+        ensures
+            r is Ok ==> (fs.state(pid(file_path)) matches FileState::Complete(c) && parse_json::<T>(c) == Some(r->Ok_0)),  // @C08.json_read_from_file.a_reader_of_a_final_name_only_ever_parses_a_complete_document
+"""
+
 JSON_WRITE_CONTRACT = """
         requires
-            old(fs).safe(),
-            !is_tmp(pid(file_path)),
+            old(fs).safe(),  // @C08.json_write_to_file.crash_invariant_on_entry
+            !is_tmp(pid(file_path)),  // @C08.json_write_to_file.final_name_is_not_a_temporary_name
         ensures
             final(fs).safe(),  // @C08.json_write_to_file.crash_invariant_holds_on_every_exit
             r is Ok ==> final(fs).state(pid(file_path)) == FileState::Complete(json_of::<T>(obj)),  // @C08.json_write_to_file.ok_means_complete_under_final_name
@@ -72,7 +109,7 @@ use std::path::Path;
 use std::path::PathBuf;"""
 
 STORE_CONTRACT = """
-        requires old(fs).safe(),
+        requires old(fs).safe(),  // @C08.%(f)s.crash_invariant_on_entry
         ensures
             final(fs).safe(),  // @C08.%(f)s.crash_invariant_holds_on_every_exit
             r is Ok ==> stored_complete(*final(fs), pid(key_dir), *key),  // @C08.%(f)s.ok_means_complete_under_the_keys_final_name
@@ -80,13 +117,13 @@ STORE_CONTRACT = """
             forall|q: PathId| q != key_path(pid(key_dir), key.guid@) && !is_tmp(q) ==> #[trigger] final(fs).state(q) == old(fs).state(q),  // @C08.%(f)s.other_final_names_untouched
 """
 FETCH_CONTRACT = """
-        requires fs.safe(),
+        requires fs.safe(),  // @C08.%(f)s.crash_invariant_on_entry
         ensures
             %(enc)sr is Ok ==> reads_as(*fs, key_path(pid(key_dir), key_guid@), r->Ok_0),  // @C08.%(f)s.reads_the_name_store_writes
             %(enc)skey_readable(*fs, key_path(pid(key_dir), key_guid@)) ==> r is Ok,  // @C08.%(f)s.readable_key_is_found
 """
 CHECK_CONTRACT = """
-        requires fs.safe(),
+        requires fs.safe(),  // @C08.%(f)s.crash_invariant_on_entry
         ensures
             r is Ok ==> read_back_identical(*fs, pid(key_dir), *key),  // @C08.%(f)s.ok_means_read_back_identical
 """
@@ -111,6 +148,20 @@ def build(u):
     err = u.src("proxy_agent/src/common/error.rs")
     kk = u.src("proxy_agent/src/key_keeper.rs")
     key = u.src("proxy_agent/src/key_keeper/key.rs")
+    # census: the only thing in key_keeper.rs (non-test, linux) that creates or replaces a file is the json_write_to_file call
+    # of store_local_key, so `Fs.safe()` -- preserved by every writer under contract -- is an invariant of the key directory
+    from vxlib import Undecided
+    writers = []
+    for it in kk.all_fns():
+        if it["path"].startswith("tests::") or it.get("body") is None:
+            continue
+        code = "\n".join(l for l in kk.s(it["body"][0], it["body"][1]).split("\n") if not l.strip().startswith("//"))
+        code = re.sub(r"#\[cfg\(windows\)\]\s*\{.*?\n\s*\}", "", code, flags=re.S)
+        for m in re.finditer(r"\b(json_write_to_file|File::create|fs::write|OpenOptions|fs::copy|fs::rename|fs::remove_file|create_dir_all)\s*(?:::\s*new\s*)?\(", code):
+            writers.append((it["path"], m.group(1)))
+    if set(writers) != {("KeyKeeper::store_local_key", "json_write_to_file")}:
+        raise Undecided("census: key_keeper.rs writes files other than through store_local_key -> json_write_to_file: %s" % writers)
+    u.rule("census", "key_keeper.rs creates/replaces files only through store_local_key -> misc_helpers::json_write_to_file")
     for f in ("str_axioms.rs", "ext_types.rs", "std_string.rs"):
         u.raw(open(os.path.join(COMMON, f)).read())
     u.raw_file("fs_spec.rs")
@@ -147,6 +198,15 @@ def build(u):
                           (tuple(c_rename["span"]), None, "from: PathBuf, to: &Path, " + FS, arg(c_rename, 0) + ", " + arg(c_rename, 1) + ", Tracked(fs)", "std::io::Result<()>",
                            RENAME_CONTRACT, dict(name="vx_e9_rename", body="std::fs::rename(from, to)", local=True))],
                       contract=JSON_WRITE_CONTRACT)
+            jr = mh.item("json_read_from_file", "fn")
+            c_open = one_call(mh, jr, "File::open", "path", 1)
+            c_rdr = one_call(mh, jr, "serde_json::from_reader", "path", 1)
+            u.take_fn(mh, "json_read_from_file", ghost=FS_RO,
+                      e9=[(tuple(c_open["span"]), None, "path: &Path, " + FS_RO, arg(c_open, 0) + ", Tracked(fs)", "std::io::Result<File>",
+                           OPEN_CONTRACT, dict(name="vx_e9_file_open", body="File::open(path)", local=True)),
+                          (tuple(c_rdr["span"]), None, "file: File, " + FS_RO, arg(c_rdr, 0) + ", Tracked(fs)", "serde_json::Result<T>",
+                           FROM_READER_CONTRACT, dict(name="vx_e9_from_reader", generics="<T: DeserializeOwned>", body="serde_json::from_reader(file)", local=True))],
+                      contract=JSON_READ_CONTRACT)
 
     PRE = "broadcast use group_fs, group_os_text, group_fmt, axiom_to_string_string, axiom_json_of_ref;\nproof { lemma_ext_lits(); }"
     with u.mod("key_keeper", uses=KK_USES):
